@@ -527,4 +527,149 @@ SF_UNIT = Unit("C18.Stack._format", SF, sf_setup,
                             "ghost functions C18.off (running line count) and C18.blk (owner of an output line) are introduced by their "
                             "defining equations"])
 
-UNITS = [SS_UNIT, FC_UNIT, FP_UNIT, cs_unit(), SA_UNIT, FF_UNIT, FSTR_UNIT, SF_UNIT]
+
+# ------------------------------------------------------------------------------------------------ Frame._format
+# lines = [header] ++ (iff show_contexts) for each context in order its lines, the first prefixed by the start-of-context marker,
+# a later one by the child-context marker iff it starts with the child indicator, else by the continuation marker ++ the code
+# line (marker + linetext + newline) iff the last context is not exiting and there is a line text.
+FF2 = TY + "Frame._format"
+ctx_lines = Function("Context._format", Val, Val, Val, Val)      # (context, opts, parent) -> list of lines (callee contract: abstract)
+coff = Function("C18.coff", IntSort(), IntSort())
+cblk = Function("C18.cblk", IntSort(), IntSort())
+clsname_of = Function("Frame.clsname", Val, Val)
+modname_of_frame = Function("Frame.modname", Val, Val)
+linetext_of = Function("Frame.linetext", Val, Val)
+
+
+def opt_str_prop(fn, optional):
+    def prop(ex, p, obj):
+        v = fn(obj.t)
+        p.pc.append(Or(Val.is_none(v), And(is_exact_kind(v, "str"), Val.a(v) >= 0)) if optional else And(is_exact_kind(v, "str"), Val.a(v) >= 0))
+        return [("ok", p, SV(v, **({} if optional else {"ty": "str"})))]
+    return prop
+
+
+def ff2_setup(ex, p):
+    self = sym_ref(p, "self", "Frame")
+    cs = typed_seq(p, self, "contexts", "Context")
+    p.pc.append(p.lo(cs.t) == 0)
+    p.pc.append(Val.is_intv(p.getf(self.t, "lineno")))
+    opts = sym_ref(p, "opts", "FormatOptions")
+    for f in ("ascii_only", "show_contexts", "show_hidden_frames"):
+        p.pc.append(Val.is_boolv(p.getf(opts.t, f)))
+    p.pc.append(coff(0) == 0)
+    p.env.update(self=self, opts=opts)
+    H0 = p.snap()
+    p.add_schema(cs.t, lambda pth, j: Implies(And(j >= 0, j < H0.length(cs.t)), Val.is_boolv(H0.getf(H0.raw(cs.t, j), "is_exiting"))))
+    def m_ctx_format(ex_, p_, args, kw, node):
+        if len(args) != 3 or kw:
+            raise Unsupported("Context._format call shape")
+        p_.ghost["cf_args"] = p_.ghost.get("cf_args", ()) + ((args[1].t, args[2].t),)
+        return [("ok", p_, abstract_lines(p_, ctx_lines(args[0].t, args[1].t, args[2].t), ex_.unit_args["HB"]))]
+    ex.unit.methods[("Context", "_format")] = m_ctx_format
+    ex.unit.props.update({("Frame", "clsname"): opt_str_prop(clsname_of, True), ("Frame", "modname"): opt_str_prop(modname_of_frame, True),
+                          ("Frame", "linetext"): opt_str_prop(linetext_of, False)})
+    ex.unit_args = dict(self=self, contexts=cs, opts=opts, HB=p.snap())
+    return ex.unit_args
+
+
+def ff2_marker(H, a, t, line):
+    asc = Val.b(H.getf(a["opts"].t, "ascii_only"))
+    indicator = If(asc, StringVal(". "), StringVal("\u2500 "))
+    return If(t == 0, If(asc, StringVal(". "), StringVal("\u251c ")),
+              If(z3.PrefixOf(indicator, line), If(asc, StringVal("  "), StringVal("\u251c\u2500")), If(asc, StringVal("  "), StringVal("\u2502 "))))
+
+
+def ff2_line_ok(ctx, pth, j, upper, bmax, lines=None):
+    a = ctx.ex.unit_args
+    H, HB = ctx.H, a["HB"]
+    lines = lines if lines is not None else ctx.v("lines")
+    b = cblk(j)
+    cx = HB.raw(a["contexts"].t, b)
+    cl = ctx_lines(cx, a["opts"].t, a["self"].t)
+    t = j - 1 - coff(b)
+    e = pth.read(lines, j, H)
+    src = strval(Val.a(HB.raw(cl, t)))
+    return Implies(And(j >= 1, j < upper),
+                   And(b >= 0, b < HB.length(a["contexts"].t), b <= bmax, t >= 0, t < HB.length(cl), Val.a(cl) >= 0, HB.lo_(cl) == 0,
+                       is_exact_kind(e, "str"), strval(Val.a(e)) == Concat(ff2_marker(HB, a, t, src), src),
+                       Implies(j + 1 < upper, cblk(j) <= cblk(j + 1))))
+
+
+def ff2_outer_inv():
+    def qf(ctx):
+        lines = ctx.v("lines")
+        return And(lines == ctx.v0("lines"), ctx.H.lo_(lines) == 0, ctx.H.length(lines) == 1 + coff(ctx.k), coff(ctx.k) >= 0,
+                   ctx.H.raw(lines, 0) == ctx.H0.raw(lines, 0))
+    def defs(ctx):
+        a = ctx.ex.unit_args
+        ctx.p.ghost["ff_k"] = ctx.k
+        HB = a["HB"]
+        cx = HB.raw(a["contexts"].t, ctx.k)
+        return coff(ctx.k + 1) == coff(ctx.k) + HB.length(ctx_lines(cx, a["opts"].t, a["self"].t))
+    return Inv("C18.frame_format.contexts", qf=qf, defs=defs, conts=["lines"], header="context in self.contexts",
+               foralls=[("lines", lambda ctx, pth, j: ff2_line_ok(ctx, pth, j, 1 + coff(ctx.k), ctx.k - 1))])
+
+
+def ff2_inner_inv():
+    def qf(ctx):
+        lines = ctx.v("lines")
+        K = ctx.p.ghost["ff_k"]
+        return And(lines == ctx.v0("lines"), ctx.H.lo_(lines) == 0, ctx.H.length(lines) == 1 + coff(K) + ctx.k, coff(K) >= 0,
+                   ctx.H.raw(lines, 0) == ctx.H0.raw(lines, 0))
+    def step(ctx):
+        K = ctx.p.ghost["ff_k"]
+        ctx.p.pc.append(cblk(coff(K) + ctx.k) == K)
+        return None
+    return Inv("C18.frame_format.context_lines", qf=qf, conts=["lines"], steps=[("C18.frame_format.ghost_owner", step)],
+               foralls=[("lines", lambda ctx, pth, j: ff2_line_ok(ctx, pth, j, 1 + coff(ctx.p.ghost["ff_k"]) + ctx.k, ctx.p.ghost["ff_k"]))])
+
+
+def ff2_post(ctx):
+    a = ctx.args
+    H, HB = ctx.H, a["HB"]
+    r = ctx.result.t
+    n = HB.length(a["contexts"].t)
+    showc = Val.b(HB.getf(a["opts"].t, "show_contexts"))
+    asc = Val.b(HB.getf(a["opts"].t, "ascii_only"))
+    nctx = If(showc, coff(n), 0)
+    last_exiting = And(n > 0, Val.b(HB.getf(HB.raw(a["contexts"].t, n - 1), "is_exiting")))
+    lt = strval(Val.a(linetext_of(a["self"].t)))
+    has_code = And(Not(last_exiting), z3.Length(lt) > 0)
+    codeline = ctx.p.read(r, 1 + nctx, H)
+    cls_, fn_, mod_ = clsname_of(a["self"].t), funcname_of(a["self"].t), modname_of_frame(a["self"].t)
+    function = If(Val.is_none(cls_), strval(Val.a(fn_)), Concat(strval(Val.a(cls_)), StringVal("."), strval(Val.a(fn_))))
+    modtxt = If(Or(Val.is_none(mod_), z3.Length(strval(Val.a(mod_))) == 0), StringVal("unknown module"), strval(Val.a(mod_)))
+    header = Concat(function, StringVal(" in "), modtxt, StringVal(" at "), strval(Val.a(filename_of(a["self"].t))), StringVal(":"),
+                    repr_of(HB.getf(a["self"].t, "lineno")), StringVal("\n"))
+    h0 = ctx.p.read(r, 0, H)
+    seen = ctx.p.ghost.get("cf_args", ())
+    return And(H.lo_(r) == 0, H.length(r) == 1 + nctx + If(has_code, 1, 0),
+               is_exact_kind(h0, "str"), strval(Val.a(h0)) == header,
+               Implies(has_code, And(is_exact_kind(codeline, "str"),
+                                     strval(Val.a(codeline)) == Concat(If(asc, StringVal("` "), StringVal("\u2514 ")), lt, StringVal("\n")))),
+               *[And(o == a["opts"].t, par == a["self"].t) for o, par in seen])
+
+
+def ff2_post_lines(ctx):
+    a = ctx.args
+    n = a["HB"].length(a["contexts"].t)
+    j = fresh_int("jl")
+    import types as _t
+    c2 = _t.SimpleNamespace(ex=ctx.ex, H=ctx.H, p=ctx.p)
+    showc = Val.b(a["HB"].getf(a["opts"].t, "show_contexts"))
+    return Implies(showc, ff2_line_ok(c2, ctx.p, j, 1 + coff(n), n - 1, lines=ctx.result.t))
+
+
+FF2_UNIT = Unit("C18.Frame._format", FF2, ff2_setup,
+                post=[Clause("C18.frame_format.header_code_line_and_length", ff2_post),
+                      Clause("C18.frame_format.every_context_line_is_marker_plus_line_of_its_context", ff2_post_lines)],
+                invariants={(FF2, "for#1"): ff2_outer_inv(), (FF2, "for#2"): ff2_inner_inv()},
+                allowed_raise=lambda ctx: BoolVal(False),
+                **{**COMMON, "props": dict(PROPS), "options": dict(COMMON.get("options", {}), strings=True, iter_any_seq=True),
+                   "known_classes": list(COMMON.get("known_classes", [])) + ["FormatOptions"]},
+                assumptions=["Context._format is abstract here (some list of str lines; callee contract); Frame.funcname / clsname / modname / "
+                             "filename / linetext are abstract str-valued properties",
+                             "ghost functions C18.coff / C18.cblk are introduced by their defining equations"])
+
+UNITS = [SS_UNIT, FC_UNIT, FP_UNIT, cs_unit(), SA_UNIT, FF_UNIT, FSTR_UNIT, SF_UNIT, FF2_UNIT]
